@@ -313,6 +313,43 @@ func main() {
 	for _, r := range results {
 		fmt.Fprintf(gen.Out, "%s\t=>\t%s\n", r.line, r.res)
 	}
+	// both arities inside one circuit definition, in both orders (the identity-commitment pattern
+	// H1(H2(a, b)), and H2(H1(a), b)): each hash must still be the reference hash
+	for i := 0; i < 6; i++ {
+		a, b := edge(g, gen.BN254), edge(g, gen.BN254)
+		h2ab, _ := iden3.Hash([]*big.Int{a, b})
+		h1h2, _ := iden3.Hash([]*big.Int{h2ab})
+		h1a, _ := iden3.Hash([]*big.Int{a})
+		h2h1b, _ := iden3.Hash([]*big.Int{h1a, b})
+		verdict := func() (res string) {
+			defer func() {
+				if x := recover(); x != nil {
+					res = fmt.Sprintf("gadget-panics(two arities in one circuit: %v)", x)
+				}
+			}()
+			if test.IsSolved(&circuits.PoseidonMixCircuit{}, &circuits.PoseidonMixCircuit{A: a, B: b, H2ab: h2ab, H1h2: h1h2, H1a: h1a, H2h1b: h2h1b}, gen.BN254) != nil {
+				return "gadget-rejects-reference(Poseidon2 then Poseidon1 in one circuit)"
+			}
+			if test.IsSolved(&circuits.PoseidonMixCircuitRev{}, &circuits.PoseidonMixCircuitRev{A: a, B: b, H1a: h1a, H2h1b: h2h1b}, gen.BN254) != nil {
+				return "gadget-rejects-reference(Poseidon1 then Poseidon2 in one circuit)"
+			}
+			if ccs, err := r1csx.Compile(&circuits.PoseidonMixCircuit{}); err != nil || r1csx.Solve(ccs, &circuits.PoseidonMixCircuit{A: a, B: b, H2ab: h2ab, H1h2: h1h2, H1a: h1a, H2h1b: h2h1b}, nil) != nil {
+				return "gadget-rejects-reference(both arities in one compiled circuit)"
+			}
+			return ""
+		}()
+		stat["mixed-arity"]++
+		out := func(want *big.Int) string {
+			if verdict != "" {
+				return verdict
+			}
+			return want.String()
+		}
+		fmt.Fprintf(gen.Out, "h2\t%s\t%s\t%s\t=>\t%s\n", gen.BN254, a, b, out(h2ab))
+		fmt.Fprintf(gen.Out, "h1\t%s\t%s\t=>\t%s\n", gen.BN254, h2ab, out(h1h2))
+		fmt.Fprintf(gen.Out, "h1\t%s\t%s\t=>\t%s\n", gen.BN254, a, out(h1a))
+		fmt.Fprintf(gen.Out, "h2\t%s\t%s\t%s\t=>\t%s\n", gen.BN254, h1a, b, out(h2h1b))
+	}
 	// the parameter tables are constants: nothing evaluated above may have written to them.  After the
 	// evaluations, the hash of (1, 2) is recomputed in the engine and in a freshly compiled R1CS.
 	{
